@@ -34,6 +34,12 @@
 //   problem.*              space_dimension(), parameter_space_dimensions(), get_big_parameter_dimension(), OK(), constraints
 //   copy.same_semantics, incremental.equals_fresh    evaluation vectors differ
 //   exn.add_to_parameter_space_dimensions.unchanged  a rejected call modified the problem                             (KF-C07-2)
+//   copy.OK_after_assign_or_swap                     OK() false right after operator= / swap                          (KF-C07-3)
+//   status.optimized_but_bottom_everywhere           OPTIMIZED although every allowed assignment is unfeasible (exact class only; KF-C07-8)
+//   crash (exit 51), wall-clock guard                KF-C07-5, KF-C07-9
+// With a big parameter nothing is claimed at assignments where the feasibility verdict of the oracle differs between M and M+1.
+// In --survey mode a muted check lets the case go on with a tree known to be broken: later failures (and crashes) of the same case are
+// artefacts; survey with the known findings active.
 //
 // Known findings
 //   KF-C07-1  PIP_Solution_Node::row_sign() (PIP_Tree.cc:2175) classifies a parametric row whose non-zero coefficients are all negative
